@@ -18,30 +18,37 @@ import (
 // negSkolem returns a formula equivalent (for satisfiability) to ¬goal with the
 // universally quantified variables of the goal replaced by fresh constants.
 func negSkolem(goal *Term, ctr *int) *Term {
+	return negSkolemC(goal, ctr, nil)
+}
+
+func negSkolemC(goal *Term, ctr *int, sks *[]*Term) *Term {
 	switch {
 	case goal.Op == "and":
 		var ds []*Term
 		for _, a := range goal.Args {
-			ds = append(ds, negSkolem(a, ctr))
+			ds = append(ds, negSkolemC(a, ctr, sks))
 		}
 		return Or(ds...)
 	case goal.Op == "or":
 		var cs []*Term
 		for _, a := range goal.Args {
-			cs = append(cs, negSkolem(a, ctr))
+			cs = append(cs, negSkolemC(a, ctr, sks))
 		}
 		return And(cs...)
 	case goal.Op == "=>":
-		return And(goal.Args[0], negSkolem(goal.Args[1], ctr))
+		return And(goal.Args[0], negSkolemC(goal.Args[1], ctr, sks))
 	case strings.HasPrefix(goal.Op, "forall#"):
 		m := map[*Term]*Term{}
 		for _, v := range goal.Vars {
 			*ctr++
 			m[v] = Const(fmt.Sprintf("sk!%s!%d", strings.SplitN(v.ConstName(), "?", 2)[0], *ctr), v.S)
+			if sks != nil {
+				*sks = append(*sks, m[v])
+			}
 		}
-		return negSkolem(Subst(goal.Args[0], m), ctr)
+		return negSkolemC(Subst(goal.Args[0], m), ctr, sks)
 	case goal.Op == "ite" && goal.S == SBool:
-		return Ite(goal.Args[0], negSkolem(goal.Args[1], ctr), negSkolem(goal.Args[2], ctr))
+		return Ite(goal.Args[0], negSkolemC(goal.Args[1], ctr, sks), negSkolemC(goal.Args[2], ctr, sks))
 	}
 	return Not(goal)
 }
@@ -98,15 +105,99 @@ func preludeFor(asserts []*Term) string {
 	return sb.String()
 }
 
+// stripQuant removes universally quantified conjuncts (weakening a hypothesis).
+func stripQuant(h *Term) *Term {
+	switch {
+	case h.Op == "and":
+		var cs []*Term
+		for _, a := range h.Args {
+			cs = append(cs, stripQuant(a))
+		}
+		return And(cs...)
+	case h.Op == "=>":
+		return Implies(h.Args[0], stripQuant(h.Args[1]))
+	case strings.HasPrefix(h.Op, "forall#"):
+		return True
+	}
+	return h
+}
+
+func hasQuant(t *Term) bool {
+	seen := map[*Term]bool{}
+	var rec func(t *Term) bool
+	rec = func(t *Term) bool {
+		if seen[t] {
+			return false
+		}
+		seen[t] = true
+		if strings.HasPrefix(t.Op, "forall#") || strings.HasPrefix(t.Op, "exists#") {
+			return true
+		}
+		for _, a := range t.Args {
+			if rec(a) {
+				return true
+			}
+		}
+		return false
+	}
+	return rec(t)
+}
+
+// Query renders the obligation. The second text (may be empty) is a weaker, quantifier-light
+// variant in which universally quantified hypotheses are replaced by their ground instances:
+// only an "unsat" answer to it is meaningful.
 func (o *Obligation) Query() (string, []*Term) {
+	t, _, gt := o.Query2()
+	return t, gt
+}
+
+func (o *Obligation) Query2() (string, string, []*Term) {
 	ex := o.Ex
 	var as []*Term
 	as = append(as, ex.axioms...)
 	as = append(as, ex.assumes[:o.NAssume]...)
 	as = append(as, o.Reach)
+	var light []*Term
+	if o.Cover {
+		anyQ := false
+		for _, h := range as {
+			sh := stripQuant(h)
+			if sh != h {
+				anyQ = true
+			}
+			light = append(light, sh)
+		}
+		if anyQ {
+			as = light // cover checks run on the quantifier-stripped hypotheses (a sat answer is then only indicative)
+		}
+		light = nil
+	}
 	if !o.Cover {
 		ctr := 0
-		as = append(as, negSkolem(o.Goal, &ctr))
+		var sks []*Term
+		ng := negSkolemC(o.Goal, &ctr, &sks)
+		insts := instantiate(as, ng, sks)
+		anyQ := false
+		for _, h := range as {
+			sh := stripQuant(h)
+			if sh != h {
+				anyQ = true
+			}
+			light = append(light, sh)
+		}
+		if anyQ {
+			light = append(light, insts...)
+			light = append(light, ng)
+		} else {
+			light = nil
+		}
+		as = append(as, insts...)
+		as = append(as, ng)
+	}
+	lightText := ""
+	if light != nil {
+		lsc := &Script{Asserts: light}
+		lightText = lsc.Render(preludeFor(light), nil)
 	}
 	sc := &Script{Asserts: as}
 	text := sc.Render(preludeFor(as), nil)
@@ -135,7 +226,7 @@ func (o *Obligation) Query() (string, []*Term) {
 	if len(gv) > 0 {
 		text += "(get-value (" + strings.Join(gv, " ") + "))\n"
 	}
-	return text, gt
+	return text, lightText, gt
 }
 
 // infoTerms: entry-state field values of pointer parameters, slice headers.
@@ -320,6 +411,7 @@ func (V *Verifier) SolveAll(obls []*Obligation) {
 }
 
 type rendered struct {
+	light string
 	text string
 	gt   []*Term
 	gts  []string
@@ -328,8 +420,8 @@ type rendered struct {
 var renderedTab = map[*Obligation]*rendered{}
 
 func (V *Verifier) render(o *Obligation) {
-	text, gt := o.Query()
-	r := &rendered{text: text, gt: gt}
+	text, light, gt := o.Query2()
+	r := &rendered{text: text, gt: gt, light: light}
 	for _, t := range gt {
 		r.gts = append(r.gts, t.String())
 	}
@@ -365,7 +457,27 @@ func (V *Verifier) solveRendered(o *Obligation) {
 			}
 			res = solveResult{st, "z3-new", el, out}
 		} else {
-			res = V.portfolio(file)
+			done := false
+			if r.light != "" {
+				lfile := strings.TrimSuffix(file, ".smt2") + ".light.smt2"
+				os.WriteFile(lfile, []byte(r.light), 0644)
+				lt := time.Duration(V.opts.Timeout) * time.Second / 2
+				st, out, el := runSolver(context.Background(), "z3-new", []string{fmt.Sprintf("-T:%d", int(lt.Seconds()))}, lfile, lt)
+				if st == "unsat" {
+					res = solveResult{st, "z3-new/inst", el, out}
+					done = true
+				} else {
+					res.time = el
+				}
+				if !V.opts.KeepSMT {
+					os.Remove(lfile)
+				}
+			}
+			if !done {
+				t0 := res.time
+				res = V.portfolio(file)
+				res.time += t0
+			}
 		}
 		solveCache.Store(key, res)
 	}
@@ -434,4 +546,115 @@ func parseValuesStr(out string, gts []string) map[string]string {
 		m[gts[i]] = lastSexp(p)
 	}
 	return m
+}
+
+// instantiate: explicit ground instances of universally quantified hypotheses at the
+// goal's skolem constants and program variables (the arithmetic-indexed selects in the
+// contracts give the solvers no usable E-matching triggers).
+func instantiate(hyps []*Term, goal *Term, sks []*Term) []*Term {
+	cands := map[*Sort][]*Term{}
+	seen := map[*Term]bool{}
+	add := func(t *Term) {
+		if !seen[t] && len(cands[t.S]) < 8 {
+			seen[t] = true
+			cands[t.S] = append(cands[t.S], t)
+		}
+	}
+	for _, s := range sks {
+		add(s)
+	}
+	nsk := map[*Sort]int{}
+	for srt, c := range cands {
+		nsk[srt] = len(c)
+	}
+	// program variables occurring in the goal
+	var walk func(t *Term)
+	wseen := map[*Term]bool{}
+	walk = func(t *Term) {
+		if wseen[t] {
+			return
+		}
+		wseen[t] = true
+		if t.IsConst() && (t.S == SInt) {
+			n := t.ConstName()
+			if strings.HasPrefix(n, "p:") || strings.Contains(n, "@L") {
+				add(t)
+			}
+		}
+		for _, a := range t.Args {
+			walk(a)
+		}
+	}
+	walk(goal)
+	var out []*Term
+	oseen := map[*Term]bool{}
+	var inst func(h *Term, guard *Term)
+	inst = func(h *Term, guard *Term) {
+		switch {
+		case h.Op == "and":
+			for _, a := range h.Args {
+				inst(a, guard)
+			}
+		case h.Op == "=>":
+			inst(h.Args[1], And(guard, h.Args[0]))
+		case strings.HasPrefix(h.Op, "forall#"):
+			vars := h.Vars
+			// candidate lists per variable
+			lists := make([][]*Term, len(vars))
+			total := 1
+			for i, v := range vars {
+				c := cands[v.S]
+				if len(vars) > 2 && nsk[v.S] > 0 {
+					c = c[:nsk[v.S]]
+				}
+				if len(c) == 0 {
+					return
+				}
+				lists[i] = c
+				total *= len(c)
+			}
+			if total > 100 {
+				// restrict to skolems only
+				total = 1
+				for i, v := range vars {
+					if nsk[v.S] == 0 {
+						return
+					}
+					lists[i] = cands[v.S][:nsk[v.S]]
+					total *= len(lists[i])
+				}
+				if total > 100 {
+					return
+				}
+			}
+			idx := make([]int, len(vars))
+			for {
+				m := map[*Term]*Term{}
+				for i, v := range vars {
+					m[v] = lists[i][idx[i]]
+				}
+				g := Implies(guard, Subst(h.Args[0], m))
+				if g != True && !oseen[g] {
+					oseen[g] = true
+					out = append(out, g)
+				}
+				k := len(vars) - 1
+				for k >= 0 {
+					idx[k]++
+					if idx[k] < len(lists[k]) {
+						break
+					}
+					idx[k] = 0
+					k--
+				}
+				if k < 0 {
+					break
+				}
+			}
+		}
+	}
+	for _, h := range hyps {
+		inst(h, True)
+	}
+	return out
 }
